@@ -81,8 +81,11 @@ CRASH_CLASSES = ["KeyboardInterrupt", "SystemExit", "GeneratorExit", "MemoryErro
 CRASH_ALWAYS = ["kill", "KeyboardInterrupt"]
 CRASH_ROTATING = [c + m for c in CRASH_CLASSES for m in ("", "*2") if c + m not in CRASH_ALWAYS]
 NAMES = {"data.png", INDEX, "index_rel.wtml", "thumb.jpg", "0_0.png"}
-STORE_VARIANTS = ["fsize:0", "fsize:half", "fsize:tail", "replace"]
-STORE_VARIANTS_SMALL = ["fsize:tail", "replace"]     # an item that fits into the stream buffer: every write failure surfaces at close()
+# the flavours of OSError a failed transfer is realised with (Fail, Refuse, the failing rename of StoreFail), and "janitor":
+# something really deletes the in-flight temporary file of the store, so that the real put_item fails by itself (ENOENT)
+FAIL_CLASSES = ["OSError", "FileNotFoundError", "PermissionError", "IsADirectoryError", "ENOSPC", "EIO", "TimeoutError", "ConnectionError"]
+STORE_VARIANTS = ["fsize:0", "fsize:half", "fsize:tail", "replace", "janitor"]
+STORE_VARIANTS_SMALL = ["fsize:tail", "replace", "janitor"]     # an item that fits into the stream buffer: every write failure surfaces at close()
 BIG = "data.png"        # this file is larger than two stream buffers, the others fit into one
 
 
@@ -159,8 +162,8 @@ class Graph(object):
                     if self.state[t]["pc"] == "idle":
                         sk = self.state[k]
                         big = a == "StoreFail" and sk["order"][sk["k"] - 1] == BIG
-                        for v in ((STORE_VARIANTS if big else STORE_VARIANTS_SMALL) if a == "StoreFail" else
-                                  self.crash_variants(k) if a == "Crash" else [None]):
+                        for v in (self.store_variants(k, big) if a == "StoreFail" else
+                                  self.crash_variants(k) if a == "Crash" else self.fail_classes(k, a)):
                             out.append((list(acc), v))
                     else:
                         dfs(t, acc)
@@ -171,14 +174,41 @@ class Graph(object):
 
 
 def _crash_variants(self, k):
+    # "kill-cli": like "kill", but the child runs the command-line entry point (toasty pipeline publish --workdir W) and
+    # the re-run that is judged afterwards goes through the command line, too
     if self.full is True:
-        return CRASH_ALWAYS + CRASH_ROTATING
+        return CRASH_ALWAYS + ["kill-cli"] + CRASH_ROTATING
     sk = self.state[k]
     r = zlib.crc32(json.dumps([sk["listing"], sk["pc"], sk["k"], sk["faults"], sk["cur"]]).encode())
-    return CRASH_ALWAYS + [CRASH_ROTATING[(r + j) % len(CRASH_ROTATING)] for j in range(int(self.full))]
+    return (CRASH_ALWAYS + (["kill-cli"] if r % 3 == 0 else []) +
+            [CRASH_ROTATING[(r + j) % len(CRASH_ROTATING)] for j in range(int(self.full))])
+
+
+def _rot(self, k, salt):
+    sk = self.state[k]
+    return zlib.crc32(json.dumps([salt, sk["listing"], sk["pc"], sk["k"], sk["faults"], sk["cur"]]).encode())
+
+
+def _fail_classes(self, k, act):
+    """The OSError flavour a Fail / Refuse edge is realised with: one per edge, in rotation over the fault points."""
+    if self.full is True:
+        return list(FAIL_CLASSES)
+    return [FAIL_CLASSES[_rot(self, k, act) % len(FAIL_CLASSES)]]
+
+
+def _store_variants(self, k, big):
+    out = []
+    for v in (STORE_VARIANTS if big else STORE_VARIANTS_SMALL):
+        if v == "replace":
+            out += ["replace:" + c for c in _fail_classes(self, k, "replace")]
+        else:
+            out.append(v)
+    return out
 
 
 Graph.crash_variants = _crash_variants
+Graph.fail_classes = _fail_classes
+Graph.store_variants = _store_variants
 
 
 class Plan(object):
@@ -235,6 +265,18 @@ class Plan(object):
 
 class SimulatedCrash(BaseException):
     pass
+
+
+def make_os_error(name):
+    if name == "OSError":
+        return TransferFailed("transfer failed")                     # a plain OSError without errno
+    if name in ("ENOSPC", "EIO"):
+        code = getattr(errno, name)
+        return OSError(code, os.strerror(code))
+    cls, code = {"FileNotFoundError": (FileNotFoundError, errno.ENOENT), "PermissionError": (PermissionError, errno.EACCES),
+                 "IsADirectoryError": (IsADirectoryError, errno.EISDIR), "TimeoutError": (TimeoutError, errno.ETIMEDOUT),
+                 "ConnectionError": (ConnectionResetError, errno.ECONNRESET)}[name]
+    return cls(code, os.strerror(code))
 
 
 class InterruptedTransfer(Exception):
@@ -436,6 +478,10 @@ class Bench(object):
             for e in self._listdir(self.store):
                 if e != STORE_CFG:
                     shutil.rmtree(os.path.join(self.store, e), ignore_errors=True)
+            for fn in self._listdir(self.work):
+                p = os.path.join(self.work, fn)
+                if fn not in ("toasty-store-config.yaml", STORE_CFG) and os.path.isfile(p):
+                    os.remove(p)
             os.makedirs(os.path.join(self.work, "approved"), exist_ok=True)
             cur = {}
         for rel in sorted(cur, reverse=True):
@@ -500,6 +546,18 @@ class Bench(object):
                             snap[rel + "/" + fn] = f.read()
                     except OSError:
                         pass                # vanished between the listing and the open
+        try:
+            tops = self._listdir(self.work)
+        except OSError:
+            tops = []
+        for fn in tops:                     # anything else the code under test keeps at the top of the work dir (lock files ...)
+            p = os.path.join(self.work, fn)
+            if fn not in ("toasty-store-config.yaml", STORE_CFG) and os.path.isfile(p):
+                try:
+                    with open(p, "rb") as f:
+                        snap["work/" + fn] = f.read()
+                except OSError:
+                    pass
         return snap
 
     def real_state(self):
@@ -549,7 +607,7 @@ class Bench(object):
     # ---- one run --------------------------------------------------------------------------------
     def run(self, plan, model_atomic):
         """Execute the real publish() once according to `plan`; returns a dict of observations."""
-        if not (plan.fault and plan.fault["kind"] == "Crash" and plan.fault.get("variant") == "kill"):
+        if not (plan.fault and plan.fault["kind"] == "Crash" and plan.fault.get("variant") in ("kill", "kill-cli")):
             return self._run(plan, model_atomic, None)
         # a hard crash: publish() runs in a forked child that dies at the crash point; its observations come through a pipe
         r, w = os.pipe()
@@ -670,9 +728,12 @@ class Bench(object):
                 exc = None
                 if flt:
                     exc = (die if (flt["kind"] == "Crash" and send) else throw if flt["kind"] == "Crash" else
-                           TransferFailed(errno.ENOSPC, "No space left on device") if flt["kind"] == "Refuse" else
+                           make_os_error((flt.get("variant") or "replace:EIO").split(":")[-1]) if flt["kind"] == "StoreFail"
+                           and (flt.get("variant") or "").startswith("replace") else
                            TransferFailed(errno.EIO, "Input/output error") if flt["kind"] == "StoreFail" else
-                           TransferFailed("transfer failed"))
+                           make_os_error(flt.get("variant") or "OSError"))
+                    if isinstance(exc, OSError):
+                        st["fail_exc"] = exc
                 size = len(content(*path)) if len(path) == 2 else 0
                 chunk = 4099 if size > 1000 else FaultStream.CHUNK
                 if flt and flt["where"] == "entry":
@@ -685,6 +746,17 @@ class Bench(object):
                     after = 0 if (n + plan.start["faults"]) % 2 == 0 else 2 * chunk
 
                 def first_read():
+                    if flt and flt.get("variant") == "janitor":
+                        # something cleans the store directory while the transfer is in flight: every entry that is not an
+                        # item (the temporary file of this put_item) is really deleted
+                        d = os.path.join(bench.store, path[0])
+                        for e in (bench._listdir(d) if os.path.isdir(d) else []):
+                            if e not in bench.files.get(path[0], ()):
+                                try:
+                                    os.remove(os.path.join(d, e))
+                                    st["janitor"] = True
+                                except OSError:
+                                    pass
                     if after is not None:
                         st["injected"] = True
                     if exp is not None and exp["mid"] is not None:
@@ -694,7 +766,18 @@ class Bench(object):
                 if flt and flt["where"] == "store":
                     # a low-level step of the store-side write fails inside the real put_item
                     var = flt["variant"]
-                    if var == "replace":
+                    if var == "janitor":
+                        try:
+                            self._real.put_item(*path, source=stream)
+                        except FileNotFoundError as e:
+                            if not st.get("janitor"):
+                                raise
+                            st["injected"] = True
+                            st["fail_exc"] = e
+                            raise
+                        if not st.get("janitor"):
+                            st["na"] = True         # this put_item keeps nothing but the item itself in the store
+                    elif var.startswith("replace"):
                         with refuse_rename(os.path.join(bench.store, path[0]), exc, lambda: st.__setitem__("injected", True)):
                             self._real.put_item(*path, source=stream)
                         if not st["injected"]:
@@ -756,11 +839,25 @@ class Bench(object):
         old_int = signal.signal(signal.SIGINT, signal.default_int_handler) if crash_cls is KeyboardInterrupt else None
         try:
             with contextlib.redirect_stdout(io.StringIO()), contextlib.redirect_stderr(io.StringIO()):
-                mgr.publish()
-        except TransferFailed:
-            outcome = "failed"
+                if variant == "kill-cli" or getattr(plan, "via_cli", False):
+                    # the operator's route: `toasty pipeline publish --workdir W`; the manager it builds gets the store proxy
+                    from toasty import cli as tcli
+                    loaders = self.pipeline.PIPELINE_IO_LOADERS
+                    orig_loader = loaders["local"]
+                    loaders["local"] = lambda config: Proxy(orig_loader(config))
+                    try:
+                        tcli.entrypoint(["pipeline", "publish", "--workdir", self.work])
+                    except SystemExit as e:
+                        if e.code not in (0, None):
+                            raise RuntimeError("toasty pipeline publish exited with status %r" % (e.code,))
+                    finally:
+                        loaders["local"] = orig_loader
+                else:
+                    mgr.publish()
         except BaseException as e:  # noqa
-            if crash_cls is not None and st["injected"] and type(e) is crash_cls:
+            if isinstance(e, TransferFailed) or (e is st.get("fail_exc") and st["injected"]):
+                outcome = "failed"
+            elif crash_cls is not None and st["injected"] and type(e) is crash_cls:
                 outcome = "crashed"
             elif isinstance(e, Exception):      # the real code gave up by itself
                 outcome, err = "raised", "%s: %s" % (type(e).__name__, e)
@@ -924,13 +1021,16 @@ class Walker(object):
             return "run"
         if f["kind"] == "StoreFail":
             return "store-side %s failing while %s/%s is written" % (
-                "rename" if f["variant"] == "replace" else "write (real file-size limit, %s)" % f["variant"], f["image"], f["file"])
+                "temporary file deleted under it (real ENOENT)" if f["variant"] == "janitor" else
+                "rename (%s)" % f["variant"].split(":")[-1] if f["variant"].startswith("replace") else
+                "write (real file-size limit, %s)" % f["variant"], f["image"], f["file"])
         if f["kind"] == "Refuse":
-            return "store refusing (ENOSPC) to create the file for %s/%s" % (f["image"], f["file"])
+            return "store refusing (%s) to create the file for %s/%s" % (f.get("variant"), f["image"], f["file"])
         return "%s %s the transfer of %s/%s" % (("crash (%s)" % ("process killed, os._exit" if f.get("variant") == "kill" else
+                                                               "`toasty pipeline publish` killed, os._exit" if f.get("variant") == "kill-cli" else
                                                                "%s%s unwinding publish()" % (f.get("variant", "?").split("*")[0],
                                                                                             ", delivered again at the next transfer" if "*2" in f.get("variant", "") else "")))
-                                                if f["kind"] == "Crash" else "failed transfer",
+                                                if f["kind"] == "Crash" else "failed transfer (%s)" % f.get("variant"),
                                                 {"entry": "before", "during": "during", "exit": "after"}[f["where"]], f["image"], f["file"])
 
     def step(self, key, snap, plan, hist):
@@ -956,6 +1056,22 @@ class Walker(object):
         real, skips = self.monitors(plan, hist2, before, res, after, dg)
         if b.stray(after):
             self.stray += 1
+        if plan.fault is not None and plan.fault.get("variant") == "kill-cli" and res["sync"]:
+            # the operator runs the command again, undisturbed: it must complete the job
+            todo = sorted(i for i in self.files if os.path.isdir(os.path.join(b.work, "approved", i)))
+            if todo:
+                ls = [(i, sorted(b._listdir(os.path.join(b.work, "approved", i)))) for i in todo]
+                fp = FreePlan(ls[0][0], ls[0][1], ls[1:])
+                fp.via_cli = True
+                res2 = b.run(fp, self.atomic)
+                self.runs += 1
+                b.current = None
+                real2 = b.real_state()
+                if res2["outcome"] != "returned" or not all(real2["loc"][i] == "published" and all(v == "complete" for v in real2["store"][i].values())
+                                                            for i in self.files):
+                    self.finding(K_RERUN, "after the %s re-running `toasty pipeline publish` %s and left %s"
+                                 % (self.how(plan, res), "returned" if res2["outcome"] == "returned" else "raised %s" % res2["error"],
+                                    json.dumps(real2, sort_keys=True)), hist2, real2)
         if plan.fault is not None and not res["sync"] and not res["na"]:
             # the run left the spec: "re-running publish completes the job" is then judged directly, by one fault-free run
             todo = sorted(i for i in self.files if os.path.isdir(os.path.join(b.work, "approved", i)))
